@@ -1,6 +1,7 @@
 import RsMatterVerif.Lemmas.Transport
 import RsMatterVerif.Lemmas.Dedup
 import RsMatterVerif.Lemmas.TwoNode
+import RsMatterVerif.Lemmas.TwoNodeBi
 import RsMatterVerif.Props.C04
 /-!
 # C09 — reliable messaging delivers each message at most once and reports the truth
@@ -37,13 +38,21 @@ For EVERY schedule of the model (induction over the schedule, invariant `TwoNode
 retransmit below the budget, give up with `TxTimeout` at the budget), `twoNode_one_tx_one_ack_suffice`
 (existential, secure sessions), `unsecured_late_copy_is_shown_again` (why the unsecured clauses carry
 `late = false`), `accepted_trace_is_a_run` (soundness of the trace monitor).
-Restrictions of the model, all needed or stated: ONE exchange, data flows A → B only and
-acknowledgements B → A are stand-alone (no piggy-backed acknowledgements, no reliable traffic of
-B); the sending application stops for good at the first failed call
+Restrictions of that model, all needed or stated: ONE exchange, data flows A → B only and
+acknowledgements B → A are stand-alone (lifted for the clauses below by `Model/TwoNodeBi.lean`); the
+sending application stops for good at the first failed call
 (`order_breaks_if_sender_continues_after_giveup` shows that "in sending order" fails otherwise);
 the receiving application's receive is atomic with its stack's; no forged or corrupted datagrams.
 No fairness is assumed and no liveness is proved: "no hang" is `twoNode_retx_xor_giveup` (the sender
 itself is never blocked) plus the harness's hang detection, not a termination theorem.
+
+## Two nodes, BOTH directions, piggy-backed acknowledgements: `Model/TwoNodeBi.lean`, `Lemmas/TwoNodeBi.lean`
+Secure session, one exchange, both applications send reliably (stop-and-wait each), acknowledgements
+piggy-backed by `ReliableMessage::pre_send`, acknowledgement mismatch ⇒ `Duplicate`, every schedule
+(invariant `TwoNodeBi.Dir` for both directions): `biNode_in_order_at_most_once`,
+`biNode_success_only_if_settled`, `biNode_acks_only_for_settled`; `biNode_success_without_application`
+(with crossing traffic a call can succeed for a message the peer's application never sees).
+This model is not replayed against the running system (the harness's flows are one-directional).
 -/
 namespace C09
 open Transport
@@ -1331,6 +1340,78 @@ example :
       [.send, .drop (.data 100 0), .retx, .drop (.data 100 0), .retx, .drop (.data 100 0), .retx, .drop (.data 100 0),
        .retx, .drop (.data 100 0), .retx, .drop (.data 100 0), .giveup]).map (fun s => (s.app, s.res, s.cur, s.net)) =
     some ([], [(0, false)], none, []) := by
+  decide
+
+/-! ## Two nodes, both directions, piggy-backed acknowledgements: every schedule
+
+`Model/TwoNodeBi.lean`: both nodes send reliable application messages on ONE exchange of a secure
+session (stop-and-wait each, nothing after a failed call), their headers carry the acknowledgement
+`ReliableMessage::pre_send` piggy-backs, both retransmit / give up / acknowledge, both receive through
+window + `ReliableMessage::post_recv` (matching acknowledgement ends the pending call, a mismatching
+one ⇒ `Duplicate`), duplicates are acknowledged afresh outside the exchange; the adversary drops,
+duplicates, delays, reorders. `TwoNodeBi.both_run`: the invariant of both directions holds after
+every schedule. -/
+
+open TwoNodeBi in
+/-- **In sending order, at most once — both directions at once, piggy-backed acknowledgements,
+every schedule** (secure session): whatever both applications send and whenever, and whatever the
+network does, the log of EACH receiving application (newest first) is strictly decreasing. -/
+theorem biNode_in_order_at_most_once (a0 b0 : Nat) (sai : Option Nat) (evs : List Ev) (s : Sys)
+    (h : run (init a0 b0 sai) evs = some s) (y : Bool) : (s.n y).app.Pairwise (· > ·) := by
+  obtain ⟨acc, g⟩ := both_run evs (both_init a0 b0 sai) h (!y)
+  have := g.sorted
+  simpa using this
+
+open TwoNodeBi in
+/-- **Success only if the message is settled at the peer's stack** — both directions, every schedule:
+a send call that returned success sent its message under a counter the peer's receive window has
+accepted or will never accept any more (`specAccept acc c = false` for the set `acc` of counters that
+window, C04's specification, has accepted). With traffic in both directions this is all that can be
+said: `biNode_success_without_application`. -/
+theorem biNode_success_only_if_settled (a0 b0 : Nat) (sai : Option Nat) (evs : List Ev) (s : Sys)
+    (h : run (init a0 b0 sai) evs = some s) (x : Bool) (j : Nat) (hok : (j, true) ∈ (s.n x).res) :
+    ∃ c acc, (s.n x).msgs[j]? = some c ∧ C04.Inv (s.n (!x)).rx acc ∧ Dedup.specAccept acc c = false := by
+  obtain ⟨acc, g⟩ := both_run evs (both_init a0 b0 sai) h x
+  obtain ⟨c, hc, hs⟩ := g.resOk j hok
+  exact ⟨c, acc, hc, g.win, hs⟩
+
+open TwoNodeBi in
+/-- acknowledgements on the wire — stand-alone or piggy-backed on a reliable message — name only
+counters that are settled at the node that sends them -/
+theorem biNode_acks_only_for_settled (a0 b0 : Nat) (sai : Option Nat) (evs : List Ev) (s : Sys)
+    (h : run (init a0 b0 sai) evs = some s) (d : Dg) (hd : d ∈ s.net) (k : Nat) (hk : d.ack = some k) :
+    ∃ acc, C04.Inv (s.n d.frm).rx acc ∧ Dedup.specAccept acc k = false := by
+  obtain ⟨acc, g⟩ := both_run evs (both_init a0 b0 sai) h (!d.frm)
+  have hw := g.win
+  simp only [Bool.not_not] at hw
+  exact ⟨acc, hw, g.netAck d hd (by simp) k hk⟩
+
+/-- non-vacuity: a request / response / next-request round with a lost and a duplicated request, a lost
+response and its retransmission; the response's header acknowledges the request, the next request
+acknowledges the response -/
+example :
+    let r := TwoNodeBi.run (TwoNodeBi.init 100 500)
+      [.send true, .drop ⟨true, 100, some 0, none⟩, .retx true, .dup ⟨true, 100, some 0, none⟩,
+       .deliver ⟨true, 100, some 0, none⟩, .send false, .deliver ⟨true, 100, some 0, none⟩,
+       .drop ⟨false, 500, some 0, some 100⟩, .deliver ⟨false, 501, none, some 100⟩, .retx false,
+       .deliver ⟨false, 500, some 0, some 100⟩, .send true, .deliver ⟨true, 101, some 1, some 500⟩]
+    r.map (fun s => ((s.n true).app, (s.n true).res)) = some ([0], [(0, true)]) ∧
+    r.map (fun s => ((s.n false).app, (s.n false).res)) = some ([1, 0], [(0, true)]) ∧
+    r.map (fun s => s.net) = some [] := by
+  intro r
+  refine ⟨by decide, by decide, by decide⟩
+
+/-- **With both sides sending, "success" does not mean "the application has it"** (the observation
+`stale_ack_drops_fresh_message`, end to end): A's request 0 is delivered and acknowledged; then both
+applications send at the same time. B's message still acknowledges A's OLD counter 100 while A waits
+for the acknowledgement of 101: A's `ReliableMessage::post_recv` answers `Duplicate`, the message is
+not handed to A's application, `handle_rx_packet` acknowledges it, B's call returns success — and A's
+log is empty for good (a retransmission would be a window duplicate). -/
+theorem biNode_success_without_application :
+    (TwoNodeBi.run (TwoNodeBi.init 100 500)
+      [.send true, .deliver ⟨true, 100, some 0, none⟩, .ackApp false, .deliver ⟨false, 500, none, some 100⟩,
+       .send true, .send false, .deliver ⟨false, 501, some 0, some 100⟩, .deliver ⟨true, 102, none, some 501⟩]).map
+      (fun s => ((s.n false).res, (s.n true).app)) = some ([(0, true)], []) := by
   decide
 
 /-- The receive window of an unsecured session (`enc = false`, the other half of the harness's
